@@ -456,8 +456,8 @@ def unclassified_state_hint(gen_text):
             new_state.append(line)
         if line.startswith("CacheKey "):
             gen_rows.add(line)
-            if line not in audit:
-                new_keys.append(line)
+            if line not in audit and "cache_key := (self_val, other_val)" not in line:
+                new_keys.append(line)   # cache key rows and mutation / alias-store rows alike
     gone = []
     for line in audit.splitlines():
         line = line.strip().rstrip(";")
